@@ -294,6 +294,81 @@ func runC02(w *World, c *Check) {
 		}
 	}
 	_ = nDel
+	// a whole client is forgotten only once none of its entries is left: dropping it on any other
+	// ground (a summary time, a size limit) forgets entries that are still inside the skew window
+	for _, fn := range svcFns {
+		fa := NewFuncAn(w, fn)
+		for _, b := range fn.Blocks {
+			for _, in := range b.Instrs {
+				acc, ok := classifyMapAccess(in, entries, replay)
+				if !ok || acc.what != "delete" || acc.which != "entries" {
+					continue
+				}
+				pass, _ := fa.MatchGuardSet([]GuardPat{EqPass("0", `len\(.*\.replayMap\)`), {Kind: "gt", X: "1", Y: `len\(.*\.replayMap\)`, PassWhen: true}}, nil)
+				where := w.Pos(InstrPos(in))
+				if len(pass) == 0 {
+					c.Fail("C02.retention", FuncKey(fn), "delete entries", where, "a client's record is deleted only when its replay map is empty", "no emptiness test of the client's replay map guards the delete")
+					continue
+				}
+				path := fa.PathToInstrAvoiding(pass, in)
+				c.Decide(path == nil, "C02.retention", FuncKey(fn), "delete entries", where, "a client's record is deleted only when its replay map is empty", "delete reachable without the 'replay map is empty' edge: "+fa.DescribePath(path))
+			}
+		}
+	}
+	// accepting is recording: every path of IsReplay that answers "not a replay" has stored the
+	// authenticator (otherwise the same authenticator is accepted again)
+	if isReplay != nil {
+		fa := NewFuncAn(w, isReplay)
+		rec := map[*ssa.BasicBlock]bool{}
+		for _, dc := range fa.CallsDeep(`service\.\(\*Cache\)\.addEntry`) {
+			rec[dc.site.Block()] = true
+		}
+		for _, b := range isReplay.Blocks {
+			for _, in := range b.Instrs {
+				if acc, ok := classifyMapAccess(in, entries, replay); ok && acc.what == "insert" {
+					rec[b] = true
+				}
+			}
+		}
+		var falseExits []Exit
+		for _, x := range fa.Exits() {
+			rs := RetResults(x.Ret)
+			if len(rs) != 1 {
+				continue
+			}
+			if v, known := fa.knownBool(rs[0], x.In); !known || !v {
+				falseExits = append(falseExits, x)
+			}
+		}
+		bad := ""
+		for _, x := range falseExits {
+			// a path from the entry to this exit that avoids every recording block
+			tb := map[*ssa.BasicBlock]bool{}
+			te := map[Edge]bool{}
+			if x.In != nil {
+				te[*x.In] = true
+			} else {
+				tb[x.Ret.Block()] = true
+			}
+			if rec[x.Ret.Block()] {
+				continue // the insert precedes the return in its own block
+			}
+			removed := map[Edge]bool{}
+			for _, b := range isReplay.Blocks {
+				for k, sb := range b.Succs {
+					if rec[sb] {
+						removed[Edge{b, k}] = true
+					}
+				}
+			}
+			if !rec[isReplay.Blocks[0]] {
+				if p := pathTo(isReplay.Blocks[0], removed, te, tb); p != nil {
+					bad = fa.DescribePath(p)
+				}
+			}
+		}
+		c.Decide(len(rec) > 0 && len(falseExits) > 0 && bad == "", "C02.atomic", FuncKey(isReplay), "accept-records", w.Pos(isReplay.Pos()), "every 'not a replay' answer has recorded the authenticator", "an accepting return is reachable without the insert: "+bad)
+	}
 
 	// ---- rule 4: singleton ------------------------------------------------------
 	var glob *ssa.Global
@@ -475,3 +550,4 @@ func isDurationParam(fa *FuncAn, term string) bool {
 	}
 	return false
 }
+
